@@ -52,14 +52,25 @@ def deleteHost (p : PL) (x : Str) : Nat × PL :=
   | some i => (1, p.delPos i)
   | none => (0, p)
 
-/-- one `deleteHost` per host of the expression (as `hostlist_delete` is documented: the number
-    of hosts successfully deleted); the order in which the names are taken does not matter for
-    the resulting list nor for the count -/
+/-- every occurrence of one name goes (cursors follow each removed position); the number removed -/
+def deleteAll : Nat → PL → Str → Nat × PL
+  | 0, p, _ => (0, p)
+  | f + 1, p, x =>
+    match find p x with
+    | none => (0, p)
+    | some i =>
+      match deleteAll f (p.delPos i) x with
+      | (n, q) => (n + 1, q)
+
+/-- `hostlist_delete(hl, expr)`: the hosts the expression names are deleted from the list — EVERY
+    occurrence of every listed name (after the call no listed name is left: what "excluded" means,
+    C02); the answer is the number of list positions removed.  The order in which the names are
+    taken does not matter for the resulting list nor for the count. -/
 def delete (p : PL) (s : Str) : Nat × PL :=
   match exprHosts s with
   | none => (0, p)
   | some hs => hs.foldl (fun (acc : Nat × PL) x =>
-      match deleteHost acc.2 x with
+      match deleteAll (acc.2.names.length + 1) acc.2 x with
       | (k, q) => (acc.1 + k, q)) (0, p)
 
 def deleteNth (p : PL) (n : Nat) : PL := p.delPos n
